@@ -1,6 +1,6 @@
 """C15 - the cached FI profile is always whole, the newest, and from the right server
 (ofxtools/Client.py:472-547 request_profile, config DATADIR, scripts/ofxget.py:_queue_scans)."""
-import os, io, json, glob, shutil, itertools, threading
+import os, io, re, json, glob, shutil, itertools, threading
 from .. import common as C
 from .. import client_harness as H
 from ..translate_client import gen_client
@@ -216,13 +216,17 @@ def gen_servers(rng, n):
 
 # ------------------------------------------------------------------ running one case on the implementation
 def build_profiles(case):
+    """real documents of the case's profiles; the length is a function of the length RANK alone (the date's zone text has 8 or 11
+    characters and appears twice: compensated by the padding), so that in-place overwrites splice at the model's offsets."""
     table = {}
+    mk = lambda n, tag, pad: H.make_profile(n, [("bank", "https://svc.example/bank", False)], tag=tag, pad=pad)
+    base = len(mk(0, "000", 0))
     for pid, p in case["profiles"].items():
-        table[int(pid)] = H.make_profile(p["date"], [("bank", "https://svc.example/bank", False)], tag="%03d" % int(pid), pad=7 * p["len"])
-    lens = {}
-    for pid, b in table.items():
-        lens.setdefault(case["profiles"][str(pid)]["len"], set()).add(len(b))
-    assert all(len(v) == 1 for v in lens.values()) and len({min(v) for v in lens.values()}) == len(lens), lens
+        want = base + 6 + 7 * p["len"]
+        b = mk(p["date"], "%03d" % int(pid), 6 + 7 * p["len"])
+        b = mk(p["date"], "%03d" % int(pid), 6 + 7 * p["len"] - (len(b) - want))
+        assert len(b) == want, (len(b), want)
+        table[int(pid)] = b
     return table
 
 
@@ -337,6 +341,7 @@ def run_case(case, workdir):
     clients = {}
     results = {}                     # call -> ("ok", bytes) | ("reject"/"crash", name) | None (killed)
     asked = []                       # (call, n or None) in order
+    asked_text = {}                  # call -> the DTPROFUP text it sent
     sent = {}                        # url -> [pid] delivered with status 0, in order
     sent_key = {}                    # (url, cache key) -> [pid]: what that server sent to clients of that institution (baseline reset after a crash / a race)
     fails = []
@@ -359,6 +364,8 @@ def run_case(case, workdir):
         except Exception:
             dtp = -1
         asked.append((n, dtp))
+        m_ = re.search(rb"<DTPROFUP>([^<\r\n]*)", rq.body or b"")
+        asked_text[n] = m_.group(1).decode("ascii", "replace") if m_ else None
         b = c["b"]
         world.snap()
         if b[0] == "transport":
@@ -448,7 +455,8 @@ def run_case(case, workdir):
                 if mine and not concurrent:
                     want = None if held is None else case["profiles"][str(held)]["date"]
                     if mine[0][1] != want:
-                        fail("asked-with-wrong-date", "call %d asked with DTPROFUP %r while holding a profile dated %r" % (n, mine[0][1], want), call=n)
+                        fail("asked-with-wrong-date", "call %d sent <DTPROFUP>%s while the profile it holds is dated %s: not the same instant (the date sent must be exactly the date held)"
+                             % (n, asked_text.get(n), "nothing (expected the 1990 placeholder)" if want is None else H.date_of(want).isoformat(timespec="milliseconds")), call=n)
                 if res is not None and res[0] == "ok":
                     pid = ids.get(res[1])
                     if pid is None:
@@ -525,7 +533,7 @@ def run_case(case, workdir):
 
 
 # ------------------------------------------------------------------ Coq encoding
-def c_optn(x): return "None" if x is None else "(Some %d)" % x
+def c_optn(x): return "None" if x is None else "(Some %d)" % (x if x >= 0 else 999999)
 def c_key(k): return "(%s,%s)" % (c_optn(k[0]), c_optn(k[1]))
 def c_bytes(t): return C.clist("%d" % x for x in t)
 
